@@ -161,6 +161,10 @@ class CArr(object):
             return ip.Builtin('fill', fill)
         if name == 'flags':
             return _Flags(self)
+        if name == 'tolist':
+            return ip.Builtin('tolist', lambda I, fr, a, k: tolist(I, fr, self))
+        if name in ('all', 'any'):
+            return ip.Builtin(name, lambda I, fr, a, k: reduce_bool(I, fr, self, name))
         if name in ('astype',):
             return ip.Builtin('astype', lambda I, fr, a, k: self)
         if name == 'ravel' or name == 'flatten' or name == 'reshape':
@@ -745,3 +749,71 @@ def sum_axis(I, fr, a, axis, keepdims):
         sl[axis] = 0
         return index(I, fr, res, tuple(sl))
     return res
+
+
+def tolist(I, fr, a):
+    shp = a.shape
+    if not all(isinstance(n, int) for n in shp):
+        raise Unsupported('tolist of a symbolic-shape closure array')
+
+    def rec(prefix, k):
+        if k == len(shp):
+            return a.at(tuple(prefix))
+        return [rec(prefix + [i], k + 1) for i in range(shp[k])]
+    return rec([], 0)
+
+
+def reduce_bool(I, fr, a, kind):
+    shp = a.shape
+    if not all(isinstance(n, int) for n in shp) or (shp and max(shp) > 16):
+        raise Unsupported('%s() of a symbolic-shape closure array' % kind)
+    import itertools as it
+    vals = [sbool(a.at(idx)) for idx in it.product(*[range(n) for n in shp])]
+    if not vals:
+        return kind == 'all'
+    return s_and(*vals) if kind == 'all' else s_or(*vals)
+
+
+def hstack(I, fr, arrs):
+    """np.hstack of 2-d arrays with concrete small second extents (or 1-d arrays with concrete extents)"""
+    arrs = list(arrs)
+    nd = arrs[0].ndim
+    ax = 1 if nd >= 2 else 0
+    widths = [a.shape[ax] for a in arrs]
+    if not all(isinstance(w, int) for w in widths):
+        raise Unsupported('hstack with symbolic widths')
+    snaps = [a.snapshot() for a in arrs]
+    shape = list(arrs[0].shape)
+    shape[ax] = sum(widths)
+
+    def f(idx):
+        j = idx[ax]
+        if not isinstance(j, int):
+            r = None
+            off = 0
+            for w, sn in zip(widths, snaps):
+                for t in range(w):
+                    loc = list(idx)
+                    loc[ax] = t
+                    v = sn(tuple(loc))
+                    r = v if r is None else s_if(core.sc_eq(j, off + t), v, r)
+                off += w
+            return r
+        off = 0
+        for w, sn in zip(widths, snaps):
+            if j < off + w:
+                loc = list(idx)
+                loc[ax] = j - off
+                return sn(tuple(loc))
+            off += w
+        raise EngineError('hstack index')
+    return CArr(CBuf(tuple(shape), memo(f), arrs[0].buf.dtype))
+
+
+def linspace(start, stop, num, dtype=None):
+    """np.linspace(start, stop, num, endpoint=True): entries start + i*(stop - start)/(num - 1) (num == 1: start)"""
+    def f(idx):
+        i = idx[0]
+        n1 = S.lift(num) - 1
+        return s_if(core.sc_eq(num, 1), S.lift(start) + 0.0, S.lift(start) + (S.lift(i) + 0.0) * (S.lift(stop) - S.lift(start)) / (n1 + 0.0))
+    return CArr(CBuf((num,), memo(f), dtype))
